@@ -1,1 +1,820 @@
-//! placeholder
+//! R-SPELL: lenient speller, perturber, denotation model and picture generators (C05, C06, C18).
+//!
+//! `spell` writes a value under a picture using only the leniencies the property lists and records
+//! the fields it wrote; `denote` is the reference reading of those fields (what the text *means*),
+//! independent of the library. A perturbation makes the text/picture denote nothing.
+
+use crate::cal::{days_from_civil, dim, doy, from_doy, leap, weekday_sun0};
+use crate::core::*;
+use crate::tok::*;
+
+#[derive(Clone, Debug, Default)]
+pub struct Given {
+    /// (value as written, number of digits written, token width n)
+    pub year: Option<(i64, usize, usize)>,
+    pub month: Option<i64>,
+    pub day: Option<i64>,
+    pub doy: Option<i64>,
+    /// weekday as 0 = Sunday .. 6
+    pub dow: Option<u32>,
+    pub hour24: Option<i64>,
+    pub hour12: Option<i64>,
+    /// Some(true) = PM
+    pub pm: Option<bool>,
+    pub minute: Option<i64>,
+    pub second: Option<i64>,
+    /// fraction digits as written
+    pub frac: Option<String>,
+    pub negative: bool,
+    /// the picture contains a 12-hour field (written or omitted)
+    pub has_hour12_field: bool,
+}
+
+/// current local (year, month) used for defaults; C05 pins it, C18 sweeps it
+#[derive(Clone, Copy, Debug)]
+pub struct Clock {
+    pub year: i32,
+    pub month: u32,
+}
+
+fn frac_to_us(digits: &str) -> u32 {
+    // decimal fraction 0.d1..dk rounded half-up to six digits (may yield 1_000_000 = carry)
+    if digits.is_empty() {
+        return 0;
+    }
+    let k = digits.len();
+    let val: u64 = digits.parse().unwrap_or(0);
+    if k <= 6 {
+        (val * 10u64.pow((6 - k) as u32)) as u32
+    } else {
+        let p = 10u64.pow((k - 6) as u32);
+        ((val + p / 2) / p) as u32
+    }
+}
+
+/// The reference reading. Err(()) = the fields denote no value of the type.
+pub fn denote(ty: Ty, g: &Given, clock: Clock) -> Result<V, ()> {
+    // ---- time of day
+    let mut hour: i64 = 0;
+    if let Some(h) = g.hour24 {
+        if !(0..24).contains(&h) {
+            return Err(());
+        }
+        hour = h;
+    }
+    if ty != Ty::DT && ty != Ty::YM && ty != Ty::Date {
+        if let Some(h) = g.hour12 {
+            if !(1..=12).contains(&h) {
+                return Err(());
+            }
+        }
+    }
+    let minute = g.minute.unwrap_or(0);
+    let second = g.second.unwrap_or(0);
+    if !(0..60).contains(&minute) || !(0..60).contains(&second) {
+        return Err(());
+    }
+    let us = g.frac.as_deref().map(frac_to_us).unwrap_or(0) as i64;
+    match ty {
+        Ty::YM => {
+            let y = g.year.map(|t| t.0).unwrap_or(0);
+            let m = g.month.unwrap_or(0);
+            if !(0..12).contains(&m) || y < 0 {
+                return Err(());
+            }
+            let total = y as i128 * 12 + m as i128;
+            if total > YM_LIM as i128 {
+                return Err(());
+            }
+            Ok(V::YM(g.negative && total != 0, y as u32, m as u32))
+        }
+        Ty::DT => {
+            let d = g.day.unwrap_or(0);
+            if d < 0 {
+                return Err(());
+            }
+            let total = d as i128 * DAY_US as i128 + hour as i128 * 3_600_000_000 + minute as i128 * 60_000_000 + second as i128 * 1_000_000 + us as i128;
+            if total > DT_LIM as i128 {
+                return Err(());
+            }
+            let t = total as i64;
+            let r = t % DAY_US;
+            Ok(V::DT(g.negative && total != 0, (t / DAY_US) as u32, (r / 3_600_000_000) as u32, (r / 60_000_000 % 60) as u32, (r / 1_000_000 % 60) as u32, (r % 1_000_000) as u32))
+        }
+        _ => {
+            // 12-hour clock: an omitted 12-hour field is 12; the meridian (if written) then applies
+            let uses12 = g.hour12.is_some() || g.has_hour12_field || (g.hour24.is_none() && g.pm.is_some());
+            if uses12 {
+                let h12 = g.hour12.unwrap_or(12);
+                hour = match g.pm {
+                    Some(false) => h12 % 12,
+                    Some(true) => h12 % 12 + 12,
+                    None => h12,
+                };
+            }
+            let tod = hour * 3_600_000_000 + minute * 60_000_000 + second * 1_000_000 + us; // may be >= one day through the carry
+            if ty == Ty::Time {
+                if tod >= DAY_US {
+                    return Err(());
+                }
+                return Ok(V::Time((tod / 3_600_000_000) as u32, (tod / 60_000_000 % 60) as u32, (tod / 1_000_000 % 60) as u32, (tod % 1_000_000) as u32));
+            }
+            // ---- date part
+            let year: i64 = match g.year {
+                Some((v, digits, n)) => {
+                    if n >= 4 || (n == 2 && digits > 2) {
+                        v
+                    } else {
+                        let p = 10i64.pow(n as u32);
+                        clock.year as i64 - clock.year as i64 % p + v
+                    }
+                }
+                None => clock.year as i64,
+            };
+            if !(1..=9999).contains(&year) {
+                return Err(());
+            }
+            let (mut month, mut day) = (g.month, g.day);
+            if let Some(n) = g.doy {
+                let len = if leap(year) { 366 } else { 365 };
+                if n < 1 || n > len {
+                    return Err(());
+                }
+                let (dm, dd) = from_doy(year, n as u32).ok_or(())?;
+                match (month, day) {
+                    (Some(m), Some(d)) => {
+                        if m != dm as i64 || d != dd as i64 {
+                            return Err(());
+                        }
+                    }
+                    (Some(m), None) => {
+                        if m != dm as i64 {
+                            return Err(());
+                        }
+                        day = Some(dd as i64);
+                    }
+                    (None, Some(d)) => {
+                        if d != dd as i64 {
+                            return Err(());
+                        }
+                        month = Some(dm as i64);
+                    }
+                    (None, None) => {
+                        month = Some(dm as i64);
+                        day = Some(dd as i64);
+                    }
+                }
+            }
+            let month = month.unwrap_or(clock.month as i64);
+            let day = day.unwrap_or(1);
+            if !(1..=12).contains(&month) || day < 1 || day > dim(year, month as u32) as i64 {
+                return Err(());
+            }
+            let n = days_from_civil(year, month, day);
+            if let Some(w) = g.dow {
+                if weekday_sun0(n) != w {
+                    return Err(());
+                }
+            }
+            if ty == Ty::Date {
+                return Ok(V::Date(year as i32, month as u32, day as u32));
+            }
+            let total = n as i128 * DAY_US as i128 + tod as i128;
+            if total > TS_MAX as i128 {
+                return Err(());
+            }
+            let (dn, r) = ((total.div_euclid(DAY_US as i128)) as i64, (total.rem_euclid(DAY_US as i128)) as i64);
+            let (y, m, d) = crate::cal::civil_from_days(dn);
+            let (h, mi, s, u) = ((r / 3_600_000_000) as u32, (r / 60_000_000 % 60) as u32, (r / 1_000_000 % 60) as u32, (r % 1_000_000) as u32);
+            if ty == Ty::Ora {
+                // Oracle-style dates hold whole seconds: a fraction (only reachable through a carry here) is floored
+                return Ok(V::Ora(y as i32, m, d, h, mi, s));
+            }
+            Ok(V::Ts(y as i32, m, d, h, mi, s, u))
+        }
+    }
+}
+
+#[derive(Clone, Copy, Debug, PartialEq, Eq, Hash)]
+pub enum Pert {
+    Month,
+    Day,
+    DayOverMonth,
+    Doy,
+    DoyMismatch,
+    Dow,
+    Hour,
+    Minute,
+    Second,
+    YearZero,
+    IntervalLimit,
+    Garbage,
+    Leftover,
+}
+impl Pert {
+    pub fn name(self) -> &'static str {
+        match self {
+            Pert::Month => "month-out-of-domain",
+            Pert::Day => "day-out-of-domain",
+            Pert::DayOverMonth => "day-beyond-month-length",
+            Pert::Doy => "day-of-year-out-of-domain",
+            Pert::DoyMismatch => "day-of-year-disagrees-with-month-day",
+            Pert::Dow => "weekday-disagrees-with-date",
+            Pert::Hour => "hour-out-of-domain",
+            Pert::Minute => "minute-out-of-domain",
+            Pert::Second => "second-out-of-domain",
+            Pert::YearZero => "year-out-of-domain",
+            Pert::IntervalLimit => "interval-beyond-limit",
+            Pert::Garbage => "trailing-garbage",
+            Pert::Leftover => "leftover-input",
+        }
+    }
+}
+
+pub struct Opts {
+    pub lenient: bool,
+    pub allow_cut: bool,
+    pub pert: Option<Pert>,
+    /// extra fraction digits beyond the value's six (for rounding / carry workloads): e.g. Some("9995")
+    pub extra_frac: Option<&'static str>,
+}
+
+pub struct Spelled {
+    pub text: String,
+    pub given: Given,
+    /// false when the requested perturbation could not be applied soundly to this picture/value
+    pub pert_applied: bool,
+}
+
+fn is_numeric(t: &Tok) -> bool {
+    matches!(t, Tok::Year(_) | Tok::MM | Tok::DD | Tok::DDD | Tok::D | Tok::HH12 | Tok::HH24 | Tok::MI | Tok::SS | Tok::FF(_))
+}
+fn is_time_field(t: &Tok) -> bool {
+    matches!(t, Tok::HH12 | Tok::HH24 | Tok::MI | Tok::SS | Tok::FF(_) | Tok::Mer { .. })
+}
+fn tolerant_tail(t: &Tok) -> bool {
+    is_time_field(t) || matches!(t, Tok::Blank(_) | Tok::Punct(b'-') | Tok::Punct(b':') | Tok::Punct(b'.'))
+}
+fn rcase(rng: &mut Rng, s: &str) -> String {
+    let mode = rng.below(4);
+    s.chars()
+        .map(|c| match mode {
+            0 => c.to_ascii_uppercase(),
+            1 => c.to_ascii_lowercase(),
+            2 => c,
+            _ => {
+                if rng.chance(1, 2) {
+                    c.to_ascii_uppercase()
+                } else {
+                    c.to_ascii_lowercase()
+                }
+            }
+        })
+        .collect()
+}
+
+/// Spells `v` under `toks`. The caller must have checked that the picture is parseable for the type
+/// (see `parse_picture_ok`).
+pub fn spell(rng: &mut Rng, v: &V, toks: &[Tok], o: &Opts) -> Spelled {
+    let ty = v.ty();
+    let mut g = Given::default();
+    g.has_hour12_field = toks.iter().any(|t| matches!(t, Tok::HH12));
+    let mut text = String::new();
+    let mut pert_applied = false;
+    // where may the text stop? (only dates/times/timestamps, never when perturbing)
+    let mut cut = toks.len();
+    if o.allow_cut && o.pert.is_none() && !ty.is_interval() && rng.chance(1, 3) {
+        let mut c = toks.len();
+        while c > 0 && tolerant_tail(&toks[c - 1]) {
+            c -= 1;
+        }
+        if c < toks.len() {
+            cut = c + rng.below((toks.len() - c) as u64 + 1) as usize;
+        }
+    }
+    if ty.is_interval() {
+        g.negative = v.negative();
+        // the '+' may be left out only when the text then starts with the digits of a field
+        // (a leading '-' separator would otherwise be read as the sign)
+        let starts_with_field = toks.first().map(is_numeric).unwrap_or(false);
+        if v.negative() {
+            text.push('-');
+        } else if !o.lenient || !starts_with_field || rng.chance(1, 2) {
+            text.push('+');
+        }
+    } else if o.lenient && rng.chance(1, 10) {
+        text.push_str(" ");
+    }
+    let (date, time, frac) = (v.date(), v.time(), v.frac());
+    for (i, t) in toks.iter().enumerate() {
+        if i >= cut {
+            break;
+        }
+        // a number may be written without padding only if the next character of the text cannot extend it
+        let next_written = if i + 1 < cut { toks.get(i + 1) } else { None };
+        let delimited = match next_written {
+            None => true,
+            Some(n) => !is_numeric(n),
+        };
+        if o.lenient && rng.chance(1, 10) && !(ty.is_interval() && i == 0 && false) {
+            text.push_str(&" ".repeat(1 + rng.below(2) as usize));
+        }
+        let num = |rng: &mut Rng, val: i64, width: usize, plus_ok: bool, force_pad: bool| -> String {
+            let mut s = if o.lenient && delimited && !force_pad && rng.chance(1, 2) { format!("{}", val) } else { format!("{:0w$}", val, w = width) };
+            if o.lenient && plus_ok && rng.chance(1, 7) {
+                s = format!("+{}", s);
+            }
+            s
+        };
+        let want = |p: Pert| o.pert == Some(p) && !pert_applied;
+        match t {
+            Tok::Blank(n) => text.push_str(&" ".repeat(if o.lenient && rng.chance(1, 4) { *n + rng.below(3) as usize } else { *n })),
+            Tok::Punct(c) => text.push(*c as char),
+            Tok::T => text.push('T'),
+            Tok::Year(n) => {
+                if let V::YM(_, y, _) = *v {
+                    let mut val = y as i64;
+                    if want(Pert::IntervalLimit) {
+                        val = 178_000_001;
+                        pert_applied = true;
+                    }
+                    let s = num(rng, val, *n, true, false);
+                    g.year = Some((val, 9, 9));
+                    text.push_str(&s);
+                } else if let Some((y, _, _)) = date {
+                    let p = 10i64.pow(*n as u32);
+                    let mut val = if *n == 4 { y as i64 } else { y as i64 % p };
+                    if want(Pert::YearZero) && *n == 4 {
+                        val = 0;
+                        pert_applied = true;
+                    }
+                    // a year field is written with exactly its n digits (or unpadded when delimited)
+                    let s0 = if o.lenient && delimited && !pert_applied && rng.chance(1, 2) { format!("{}", val) } else { format!("{:0w$}", val, w = *n) };
+                    let digits = s0.len();
+                    let s = if o.lenient && rng.chance(1, 7) { format!("+{}", s0) } else { s0 };
+                    g.year = Some((val, digits, *n));
+                    text.push_str(&s);
+                }
+            }
+            Tok::MM => {
+                if let V::YM(_, _, m) = *v {
+                    let mut val = m as i64;
+                    if want(Pert::Month) {
+                        val = 12;
+                        pert_applied = true;
+                    }
+                    g.month = Some(val);
+                    text.push_str(&num(rng, val, 2, true, pert_applied));
+                } else if let Some((_, m, _)) = date {
+                    if want(Pert::Month) {
+                        let val = *rng.pick(&[0i64, 13, 14, 99]);
+                        pert_applied = true;
+                        g.month = Some(val);
+                        text.push_str(&format!("{:02}", val));
+                    } else {
+                        g.month = Some(m as i64);
+                        // a month name where a month number is expected (only if what follows cannot extend the name)
+                        let next_alpha = matches!(next_written, Some(Tok::Mon(_)) | Some(Tok::Month(_)) | Some(Tok::Day(_)) | Some(Tok::Dy(_)) | Some(Tok::Mer { .. }) | Some(Tok::T));
+                        if o.lenient && !next_alpha && rng.chance(1, 5) {
+                            let nm = MONTHS[m as usize - 1];
+                            let s = if rng.chance(1, 2) { nm.to_string() } else { nm[..3].to_string() };
+                            text.push_str(&rcase(rng, &s));
+                        } else {
+                            text.push_str(&num(rng, m as i64, 2, true, false));
+                        }
+                    }
+                }
+            }
+            Tok::Mon(_) | Tok::Month(_) => {
+                let (_, m, _) = date.unwrap();
+                g.month = Some(m as i64);
+                let nm = MONTHS[m as usize - 1];
+                let s = if matches!(t, Tok::Mon(_)) { &nm[..3] } else { nm };
+                text.push_str(&if o.lenient { rcase(rng, s) } else { s.to_string() });
+            }
+            Tok::DD => {
+                if let V::DT(_, d, ..) = *v {
+                    let mut val = d as i64;
+                    if want(Pert::IntervalLimit) {
+                        val = 100_000_001;
+                        pert_applied = true;
+                    }
+                    g.day = Some(val);
+                    text.push_str(&num(rng, val, 2, true, false));
+                } else if let Some((y, m, d)) = date {
+                    let mut val = d as i64;
+                    if want(Pert::Day) {
+                        val = *rng.pick(&[0i64, 32, 33, 99]);
+                        pert_applied = true;
+                    } else if want(Pert::DayOverMonth) && dim(y as i64, m) < 31 {
+                        val = dim(y as i64, m) as i64 + 1;
+                        pert_applied = true;
+                    }
+                    g.day = Some(val);
+                    text.push_str(&num(rng, val, 2, true, pert_applied));
+                }
+            }
+            Tok::DDD => {
+                let (y, m, d) = date.unwrap();
+                let mut val = doy(y as i64, m, d) as i64;
+                if want(Pert::Doy) {
+                    val = *rng.pick(&[0i64, if leap(y as i64) { 367 } else { 366 }, 400, 999]);
+                    pert_applied = true;
+                } else if want(Pert::DoyMismatch) && toks.iter().any(|t| matches!(t, Tok::DD)) {
+                    let len = if leap(y as i64) { 366 } else { 365 };
+                    val = if val < len { val + 1 } else { val - 1 };
+                    pert_applied = true;
+                }
+                g.doy = Some(val);
+                text.push_str(&num(rng, val, 3, true, pert_applied));
+            }
+            Tok::D | Tok::Day(_) | Tok::Dy(_) => {
+                let (y, m, d) = date.unwrap();
+                let mut w = weekday_sun0(days_from_civil(y as i64, m as i64, d as i64));
+                if want(Pert::Dow) {
+                    w = (w + 1 + rng.below(5) as u32) % 7;
+                    pert_applied = true;
+                }
+                g.dow = Some(w);
+                match t {
+                    Tok::D => text.push_str(&format!("{}", w + 1)),
+                    Tok::Day(_) => text.push_str(&if o.lenient { rcase(rng, DAYS[w as usize]) } else { DAYS[w as usize].to_string() }),
+                    _ => text.push_str(&if o.lenient { rcase(rng, &DAYS[w as usize][..3]) } else { DAYS[w as usize][..3].to_string() }),
+                }
+            }
+            Tok::HH24 => {
+                let (h, _, _) = time.unwrap();
+                let mut val = h as i64;
+                if want(Pert::Hour) {
+                    val = *rng.pick(&[24i64, 25, 60, 99]);
+                    pert_applied = true;
+                }
+                g.hour24 = Some(val);
+                text.push_str(&num(rng, val, 2, true, pert_applied));
+            }
+            Tok::HH12 => {
+                let (h, _, _) = time.unwrap();
+                let mut val = if h % 12 == 0 { 12 } else { (h % 12) as i64 };
+                if want(Pert::Hour) {
+                    val = *rng.pick(&[0i64, 13, 14, 24, 99]);
+                    pert_applied = true;
+                }
+                g.hour12 = Some(val);
+                text.push_str(&num(rng, val, 2, true, pert_applied));
+            }
+            Tok::MI => {
+                let (_, mi, _) = time.unwrap();
+                let mut val = mi as i64;
+                if want(Pert::Minute) {
+                    val = *rng.pick(&[60i64, 61, 99]);
+                    pert_applied = true;
+                }
+                g.minute = Some(val);
+                text.push_str(&num(rng, val, 2, true, pert_applied));
+            }
+            Tok::SS => {
+                let (_, _, s) = time.unwrap();
+                let mut val = s as i64;
+                if want(Pert::Second) {
+                    val = *rng.pick(&[60i64, 61, 99]);
+                    pert_applied = true;
+                }
+                g.second = Some(val);
+                text.push_str(&num(rng, val, 2, true, pert_applied));
+            }
+            Tok::FF(n) => {
+                let us = frac.unwrap();
+                let maxd = n.unwrap_or(9);
+                let mut digits = format!("{:06}", us);
+                if let Some(x) = o.extra_frac {
+                    digits.push_str(x);
+                }
+                digits.truncate(maxd);
+                // directly followed by another number the field must fill its whole width
+                if !delimited {
+                    while digits.len() < maxd {
+                        digits.push('0');
+                    }
+                }
+                // fewer digits may be written only when the text ends the number there
+                if o.lenient && delimited && o.extra_frac.is_none() && rng.chance(1, 3) {
+                    while digits.len() > 1 && digits.ends_with('0') {
+                        digits.pop();
+                    }
+                }
+                g.frac = Some(digits.clone());
+                text.push_str(&digits);
+            }
+            Tok::Mer { dots } => {
+                let (h, _, _) = time.unwrap();
+                let pm = h >= 12;
+                g.pm = Some(pm);
+                let s = match (pm, dots) {
+                    (false, false) => "AM",
+                    (true, false) => "PM",
+                    (false, true) => "A.M.",
+                    (true, true) => "P.M.",
+                };
+                text.push_str(&if o.lenient { rcase(rng, s) } else { s.to_string() });
+            }
+            Tok::W | Tok::WW => text.push('1'),
+        }
+    }
+    if o.pert == Some(Pert::Garbage) && cut == toks.len() {
+        text.push_str(*rng.pick(&["x", " x", "?", "#", "é", " 0", "z9"]));
+        pert_applied = true;
+    }
+    if o.pert == Some(Pert::Leftover) && cut == toks.len() {
+        // a well-formed extra field's worth of text that the picture does not account for
+        text.push_str(*rng.pick(&[" 12", "-01", ":00", " AM", " Mon", ".5"]));
+        pert_applied = true;
+    }
+    if o.lenient && rng.chance(1, 8) {
+        text.push_str(&" ".repeat(1 + rng.below(2) as usize));
+    }
+    Spelled { text, given: g, pert_applied }
+}
+
+#[derive(Clone, Copy, Debug, PartialEq, Eq, Hash)]
+pub enum PicDefect {
+    RepeatedField,
+    OutputOnly,
+    Inapplicable,
+}
+impl PicDefect {
+    pub fn name(self) -> &'static str {
+        match self {
+            PicDefect::RepeatedField => "field-code-repeats",
+            PicDefect::OutputOnly => "output-only-code",
+            PicDefect::Inapplicable => "inapplicable-code",
+        }
+    }
+}
+
+fn field_class(t: &Tok) -> Option<u8> {
+    Some(match t {
+        Tok::Year(_) => 1,
+        Tok::MM | Tok::Mon(_) | Tok::Month(_) => 2,
+        Tok::DD => 3,
+        Tok::DDD => 4,
+        Tok::D | Tok::Day(_) | Tok::Dy(_) => 5,
+        Tok::HH12 | Tok::HH24 => 6,
+        Tok::MI => 7,
+        Tok::SS => 8,
+        Tok::FF(_) => 9,
+        Tok::Mer { .. } => 10,
+        _ => return None,
+    })
+}
+
+/// Is this token list a picture under which text can be parsed into `ty` at all, according to the
+/// property (every code applies to the type, none is output-only, no field class repeats)? Pictures
+/// mixing HH24 with a meridian indicator are outside what the statement describes: None.
+pub fn parse_picture_ok(ty: Ty, toks: &[Tok]) -> Option<bool> {
+    let mut seen = [false; 11];
+    let mut ok = true;
+    for t in toks {
+        if matches!(t, Tok::W | Tok::WW) || !ty.applies(t) {
+            ok = false;
+        }
+        if let Some(c) = field_class(t) {
+            if seen[c as usize] {
+                ok = false;
+            }
+            seen[c as usize] = true;
+        }
+    }
+    if toks.iter().any(|t| matches!(t, Tok::HH24)) && toks.iter().any(|t| matches!(t, Tok::Mer { .. })) {
+        return None;
+    }
+    Some(ok)
+}
+
+// ------------------------------------------------------------------------------------------------
+// picture generators
+
+#[derive(Clone, Copy, PartialEq, Eq)]
+pub enum Style3 {
+    U,
+    C,
+    L,
+}
+fn style(rng: &mut Rng) -> Style {
+    *rng.pick(&[Style::Upper, Style::Capital, Style::Lower])
+}
+
+const SEPS: &[&str] = &["-", "/", " ", ",", ".", ";", ":", "\\", "T", "  ", " - ", ", ", ""];
+
+/// Fields carrying all of a value's information (lossless = true) or a random, possibly partial,
+/// selection (lossless = false; used for C05 on types where that is meaningful).
+fn field_set(rng: &mut Rng, ty: Ty, lossless: bool) -> Vec<Tok> {
+    let mut f: Vec<Tok> = vec![];
+    let month_tok = |rng: &mut Rng| match rng.below(3) {
+        0 => Tok::MM,
+        1 => Tok::Mon(style(rng)),
+        _ => Tok::Month(style(rng)),
+    };
+    let dow_tok = |rng: &mut Rng| match rng.below(3) {
+        0 => Tok::D,
+        1 => Tok::Day(style(rng)),
+        _ => Tok::Dy(style(rng)),
+    };
+    if ty.has_date() {
+        f.push(Tok::Year(4));
+        match rng.below(4) {
+            0 => {
+                f.push(Tok::DDD);
+                if rng.chance(1, 3) {
+                    f.push(month_tok(rng));
+                }
+            }
+            1 => {
+                f.push(month_tok(rng));
+                f.push(Tok::DD);
+                f.push(Tok::DDD);
+            }
+            _ => {
+                f.push(month_tok(rng));
+                f.push(Tok::DD);
+            }
+        }
+        if rng.chance(1, 3) {
+            f.push(dow_tok(rng));
+        }
+    }
+    if ty == Ty::YM {
+        if lossless || rng.chance(4, 5) {
+            f.push(Tok::Year(1 + rng.below(4) as usize));
+        }
+        if lossless || f.is_empty() || rng.chance(4, 5) {
+            f.push(Tok::MM);
+        }
+    }
+    if ty == Ty::DT {
+        let all = [Tok::DD, Tok::HH24, Tok::MI, Tok::SS];
+        for t in all {
+            if lossless || rng.chance(4, 5) {
+                f.push(t);
+            }
+        }
+        if lossless || rng.chance(4, 5) {
+            f.push(Tok::FF(if lossless { *rng.pick(&[None, Some(6), Some(7), Some(8), Some(9)]) } else { *rng.pick(&[None, Some(1), Some(2), Some(3), Some(4), Some(5), Some(6), Some(7), Some(8), Some(9)]) }));
+        }
+        if f.is_empty() {
+            f.push(Tok::DD);
+        }
+    }
+    if matches!(ty, Ty::Time | Ty::Ts | Ty::Ora) {
+        let partial = !lossless && rng.chance(1, 3);
+        if rng.chance(1, 2) {
+            f.push(Tok::HH24);
+        } else {
+            f.push(Tok::HH12);
+            if !partial || rng.chance(1, 2) {
+                f.push(Tok::Mer { dots: rng.chance(1, 2) });
+            }
+        }
+        if !partial || rng.chance(1, 2) {
+            f.push(Tok::MI);
+        }
+        if !partial || rng.chance(1, 2) {
+            f.push(Tok::SS);
+        }
+        if ty != Ty::Ora && (!partial || rng.chance(1, 2)) {
+            f.push(Tok::FF(if lossless { *rng.pick(&[None, Some(6), Some(7), Some(8), Some(9)]) } else { *rng.pick(&[None, Some(1), Some(2), Some(3), Some(4), Some(5), Some(6), Some(7), Some(8), Some(9)]) }));
+        }
+    }
+    f
+}
+
+fn fixed_width_numeric(ty: Ty, t: &Tok) -> bool {
+    match t {
+        Tok::Year(n) => *n == 4 && !ty.is_interval(),
+        Tok::MM | Tok::DDD | Tok::D | Tok::HH12 | Tok::HH24 | Tok::MI | Tok::SS => true,
+        Tok::DD => ty != Ty::DT,
+        Tok::FF(Some(_)) => true,
+        _ => false,
+    }
+}
+fn is_alpha_field(t: &Tok) -> bool {
+    matches!(t, Tok::Mon(_) | Tok::Month(_) | Tok::Day(_) | Tok::Dy(_) | Tok::Mer { .. })
+}
+fn styled_tok_text(rng: &mut Rng, t: &Tok) -> String {
+    // picture spelling; for non-name tokens the letter case is free
+    let base = tok_text(t);
+    match t {
+        Tok::Mon(_) | Tok::Month(_) | Tok::Day(_) | Tok::Dy(_) | Tok::T | Tok::Punct(_) | Tok::Blank(_) => base,
+        Tok::HH12 => {
+            let b = if rng.chance(1, 2) { "HH" } else { "HH12" };
+            if rng.chance(1, 3) {
+                b.to_lowercase()
+            } else {
+                b.to_string()
+            }
+        }
+        Tok::Mer { dots } => {
+            let pm = rng.chance(1, 2);
+            let s = match (pm, dots) {
+                (false, false) => "AM",
+                (true, false) => "PM",
+                (false, true) => "A.M.",
+                (true, true) => "P.M.",
+            };
+            if rng.chance(1, 3) {
+                s.to_lowercase()
+            } else {
+                s.to_string()
+            }
+        }
+        _ => {
+            if rng.chance(1, 3) {
+                base.to_lowercase()
+            } else {
+                base
+            }
+        }
+    }
+}
+
+pub struct GenPic {
+    pub text: String,
+    pub toks: Vec<Tok>,
+}
+
+/// Generates a picture for `ty`; None when the concatenation re-lexes into something else than the
+/// intended fields (such draws are skipped, never judged).
+pub fn gen_picture(rng: &mut Rng, ty: Ty, lossless: bool) -> Option<GenPic> {
+    let mut fields = field_set(rng, ty, lossless);
+    // random permutation
+    for i in (1..fields.len()).rev() {
+        let j = rng.below(i as u64 + 1) as usize;
+        fields.swap(i, j);
+    }
+    let mut text = String::new();
+    let mut intended: Vec<Tok> = vec![];
+    let push_sep = |rng: &mut Rng, text: &mut String, s: &str| {
+        let _ = rng;
+        text.push_str(s);
+    };
+    if rng.chance(1, 8) {
+        let s = *rng.pick(&[" ", "-", "/", ".", "  ", ","]);
+        push_sep(rng, &mut text, s);
+    }
+    for (i, f) in fields.iter().enumerate() {
+        text.push_str(&styled_tok_text(rng, f));
+        if i + 1 < fields.len() {
+            let next = &fields[i + 1];
+            // adjacency without separator only between two fixed-width numeric fields, or a numeric and an alphabetic one
+            let may_adjoin = (fixed_width_numeric(ty, f) && fixed_width_numeric(ty, next))
+                || (fixed_width_numeric(ty, f) && is_alpha_field(next))
+                || (is_alpha_field(f) && is_numeric(next));
+            let mut sep = *rng.pick(SEPS);
+            if sep.is_empty() && !may_adjoin {
+                sep = *rng.pick(&["-", " ", "/", ":", "."]);
+            }
+            // 'T' directly after or before a name token would be read as part of a word by a human; keep it between numerics only
+            if sep == "T" && (is_alpha_field(f) || is_alpha_field(next)) {
+                sep = " ";
+            }
+            text.push_str(sep);
+        }
+    }
+    if rng.chance(1, 10) {
+        text.push_str(*rng.pick(&[" ", ".", ";", "  "]));
+    }
+    let toks = tokenize(text.as_bytes())?;
+    // the picture must re-tokenise to exactly the intended fields (in order), ignoring separators
+    for t in toks.iter() {
+        if field_class(t).is_some() || matches!(t, Tok::W | Tok::WW) {
+            intended.push(t.clone());
+        }
+    }
+    if intended.len() != fields.len() {
+        return None;
+    }
+    for (a, b) in intended.iter().zip(fields.iter()) {
+        let same = match (a, b) {
+            (Tok::Mer { dots: x }, Tok::Mer { dots: y }) => x == y,
+            _ => a == b,
+        };
+        if !same {
+            return None;
+        }
+    }
+    if toks.len() > MAX_TOKENS {
+        return None;
+    }
+    Some(GenPic { text, toks })
+}
+
+/// the fixed "canonical" pictures used besides the generated ones
+pub fn canonical_pictures(ty: Ty) -> &'static [&'static str] {
+    match ty {
+        Ty::Date => &["YYYY-MM-DD", "DD/MM/YYYY", "YYYY MON DD", "DAY, DD MONTH YYYY", "YYYYMMDD", "YYYY DDD", "YYYY-DDD", "DY YYYY.MM.DD DDD", "D YYYY MON DD", "Month DD, YYYY", "dd-mon-yyyy", "YYYYDDD", "MM\\DD\\YYYY;dy"],
+        Ty::Time => &["HH24:MI:SS.FF", "HH:MI:SS AM", "A.M. HH12.MI.SS.FF6", "HH24MISS", "HH24:MI:SS.FF3", "SS:MI:HH24", "PM HH:MI", "HH24:MI:SS.FF9", "HH24:MI", "HH24", "hh24-mi-ss", "HH12:MI:SS.FF7 P.M.", "MI:SS.FF2", "FF6"],
+        Ty::Ts => &["YYYY-MM-DD HH24:MI:SS.FF", "YYYY-MM-DDTHH24:MI:SS.FF9", "DD-MON-YYYY HH:MI:SS.FF AM", "YYYYMMDDHH24MISSFF6", "DAY DD MONTH YYYY HH12 P.M. MI SS", "YYYY/DDD HH24:MI", "YYYY-MM-DD HH24:MI:SS.FF7", "yyyy.mm.dd hh24:mi:ss.ff3", "YYYY-MM-DD"],
+        Ty::Ora => &["YYYY-MM-DD HH24:MI:SS", "DD-MON-YYYY HH:MI:SS AM", "YYYYMMDDHH24MISS", "YYYY DDD HH24-MI-SS DY", "YYYY-MM-DD", "Month DD YYYY, HH12:MI A.M."],
+        Ty::YM => &["YYYY-MM", "YY-MM", "Y MM", "YYYY/MM", "MM-YYYY", "MM", "YYYY", "YYY.MM", " YYYY-MM"],
+        Ty::DT => &["DD HH24:MI:SS.FF", "DD HH24:MI:SS.FF6", "DD HH24:MI:SS", "DD HH24 MI SS FF9", "HH24:MI:SS", "DD", "HH24:MI:SS.FF DD", "MI:SS.FF3", "DD HH24:MI:SS.FF7", "FF6 SS MI HH24 DD"],
+    }
+}
